@@ -350,19 +350,14 @@ fn lcm(a: i64, b: i64) -> i64 { a / gcd(a, b) * b }
 fn gen_metal(rng: &mut Rng, horiz: bool) -> MetalD {
     let pitch = *rng.pick(&[240i64, 360, 480, 720]);
     let e = |tt: Tt, w: i64| EntryD { tt, w };
-    let kind = rng.below(5);
+    let kind = rng.below(11);
     let (mut specs, offset, overlap, flip): (Vec<SpecD>, i64, i64, bool) = match kind {
-        0 => { // plain: (sig, gap) repeated
-            let n = [1i64, 2, 3][rng.below(3) as usize];
-            let w = [20i64, 40, 60][rng.below(3) as usize];
-            (vec![SpecD::Rep(vec![e(Tt::Sig, w), e(Tt::Gap, pitch / n - w)], n as usize)], [0, -10, -w / 2][rng.below(3) as usize], 0, rng.chance(1, 3))
-        }
-        1 | 2 => { // asymmetric: positions change when the period is flipped
+        1 | 2 | 6 => { // asymmetric: positions change when the period is flipped
             let (g1, w1, g2, w2) = (20 + 2 * rng.range(0, 10), 20 + 2 * rng.range(0, 10), 10 + 2 * rng.range(0, 10), 30 + 2 * rng.range(0, 15));
             let rest = pitch - g1 - w1 - g2 - w2;
             (vec![SpecD::One(e(Tt::Gap, g1)), SpecD::One(e(Tt::Sig, w1)), SpecD::One(e(Tt::Gap, g2)), SpecD::One(e(Tt::Sig, w2)), SpecD::One(e(Tt::Gap, rest))], [0, -20, 6][rng.below(3) as usize], 0, rng.coin())
         }
-        3 => { // shared rails at both ends, overlapping the neighbouring period (the sample PDK pattern)
+        3 | 7 => { // shared rails at both ends, overlapping the neighbouring period (the sample PDK pattern)
             let r = [40i64, 60][rng.below(2) as usize];
             let n = 1 + rng.below(3) as i64;
             let w = 20;
@@ -370,6 +365,17 @@ fn gen_metal(rng: &mut Rng, horiz: bool) -> MetalD {
             let g = g - g % 2;
             let last = pitch + r - 2 * r - n * (g + w);
             (vec![SpecD::One(e(Tt::Gnd, r)), SpecD::Rep(vec![e(Tt::Gap, g), e(Tt::Sig, w)], n as usize), SpecD::One(e(Tt::Gap, last)), SpecD::One(e(Tt::Pwr, r))], -r / 2, r, true)
+        }
+        9 | 10 => { // rails only: a power-grid layer with no signal track at all
+            let r = [40i64, 60, 90][rng.below(3) as usize];
+            let g = 2 * rng.range(5, 20);
+            if kind == 9 { (vec![SpecD::One(e(Tt::Pwr, r)), SpecD::One(e(Tt::Gap, g)), SpecD::One(e(Tt::Gnd, r)), SpecD::One(e(Tt::Gap, pitch - 2 * r - g))], [0, -r / 2][rng.below(2) as usize], 0, rng.coin()) }
+            else { (vec![SpecD::One(e(Tt::Gap, g)), SpecD::One(e(Tt::Gnd, r)), SpecD::One(e(Tt::Gap, pitch - r - g))], 0, 0, rng.coin()) }
+        }
+        0 | 5 => { // plain: (sig, gap) repeated
+            let n = [1i64, 2, 3][rng.below(3) as usize];
+            let w = [20i64, 40, 60][rng.below(3) as usize];
+            (vec![SpecD::Rep(vec![e(Tt::Sig, w), e(Tt::Gap, pitch / n - w)], n as usize)], [0, -10, -w / 2][rng.below(3) as usize], 0, rng.chance(1, 3))
         }
         _ => { // rails inside the period, asymmetric, no overlap
             let r = 40;
@@ -419,11 +425,13 @@ pub fn gen_case(rng: &mut Rng) -> (StackD, CellD) {
             let l = rng.below(cm as u64) as usize;
             let l2 = if l == 0 { 1 } else if l + 1 >= cm { l - 1 } else if rng.coin() { l + 1 } else { l - 1 };
             let l2 = if rng.chance(1, 30) { rng.below(stack.metals.len() as u64) as usize } else { l2 };
+            if (stack.metals[l].nsig() == 0 || stack.metals.get(l2).map_or(true, |m| m.nsig() == 0)) && !rng.chance(1, 20) { continue; } // rails-only layers take no cuts
             cell.cuts.push([l, rng.below(ntracks(l, &stack) as u64) as usize, l2, rng.below(ntracks(l2, &stack) as u64) as usize]);
         }
         for _ in 0..rng.below(4) {
             let l = rng.below(cm as u64 - 1) as usize;
             let (a, b) = if rng.coin() { (l, l + 1) } else { (l + 1, l) };
+            if (stack.metals[a].nsig() == 0 || stack.metals[b].nsig() == 0) && !rng.chance(1, 20) { continue; }
             cell.assigns.push(([ "a", "b", "clk" ][rng.below(3) as usize].to_string(), [a, rng.below(ntracks(a, &stack) as u64) as usize, b, rng.below(ntracks(b, &stack) as u64) as usize]));
         }
     }
